@@ -10,6 +10,7 @@
 (***************************************************************************)
 EXTENDS Naturals, Integers, Sequences, FiniteSets, TLC, TLCExt, Json, IOUtils, CelEval
 LOCAL ZO == INSTANCE CelZoo
+LOCAL AST == INSTANCE CelAst
 
 Rec == ndJsonDeserialize(IOEnv.TRACE)
 
@@ -39,7 +40,15 @@ Explains(fin, r) ==
   /\ \/ fin.dev                                   \* outside what the properties pin down: value or error suffices
      \/ (LogMatches(fin.log, r.log) /\ OutMatches(fin, r.out))
 
-Finals(r) == RunSet(InitCfg(r.ast, RootScope(r.vars)), F)
+\* Cases replayed from model-generated vectors carry the prefix symbols the model built: the
+\* intended tree is then the specification's own (macro-expanded) tree, not the one the
+\* implementation's parser returned, so the whole path source text -> behaviour is judged.
+ModelEnv(list) == << << "vi", VIntN(7) >>, << "x", VIntN(40) >>,
+                    << "vl", VList([i \in 1..Len(list) |-> VIntN(list[i])]) >>,
+                    << "vm", [t |-> "map", e |-> << << VStr(<<97>>), VIntN(1) >>, << VStr(<<98>>), VIntN(0) >> >>, ord |-> TRUE] >> >>
+Finals(r) == IF "syms" \in DOMAIN r
+             THEN RunSet(InitCfg(AST!Expand(AST!ParsePrefix(r.syms).tree), ModelEnv(r.vl)), F)
+             ELSE RunSet(InitCfg(r.ast, RootScope(r.vars)), F)
 
 Init == l = 1 /\ bad = << >> /\ ndev = 0
 Next == /\ l <= Len(Rec)
